@@ -119,6 +119,31 @@ def run(R, tier, seed, driver_ok):
                     meta.append(('embdist', np.array([emb[i]]), sx, case))
                     lines.append(f'metric {k} {d} {Lb} 1 {bits(x0)} {bits(x1)}')
                     meta.append(('metric-squared', np.array([msq]), sd ** 2, case))
+    # --- every view follows a refit of the same object (a view computed before the refit must not linger)
+    for name in (zoo.ALL if tier == 'thorough' else [zoo.ALL[i] for i in rng.choice(len(zoo.ALL), 6, replace=False)]):
+        d = int(rng.randint(2, 5))
+        est, X, y, args = zoo.fitted(name, rng, d=d)
+        M1 = est.get_mahalanobis_matrix(); f1 = est.get_metric()
+        X2, y2 = zoo.blobs(rng, d, int(rng.randint(2, 4)), 7)
+        a2 = zoo.fit_args(name, X2 * 1.7, y2, rng)
+        if name == 'RCA_Supervised':
+            est.set_params(**{k: v for k, v in zoo.fix_params(name, est.get_params(), X2, y2).items() if k in ('n_chunks', 'chunk_size')})
+        try:
+            with warnings.catch_warnings():
+                warnings.simplefilter('ignore')
+                est.fit(*a2)
+        except RuntimeError:
+            continue
+        L = np.asarray(est.components_); M = est.get_mahalanobis_matrix()
+        P = zoo.query_points(rng, X2, L, 6, 'train')[:, :2]
+        pd = est.pair_distance(P); diff = P[:, 1] - P[:, 0]
+        q2 = np.einsum('ij,jk,ik->i', diff, M, diff)
+        m2 = np.array([float(est.get_metric()(P[i, 0], P[i, 1])) for i in range(len(P))])
+        R.case(('c02-refit', name, X2.tobytes().hex()[:32]), True, branch='after-refit')
+        sd_ = np.linalg.norm(L) * np.linalg.norm(diff, axis=1)
+        if np.abs(M - L.T.dot(L)).max() > REL * np.linalg.norm(L) ** 2 + 1e-300 or np.any(np.abs(q2 - pd ** 2) > REL * sd_ ** 2 + 1e-300) \
+                or np.any(np.abs(m2 - pd) > REL * sd_ + 1e-300):
+            R.violation('views-after-refit', f'{name}: after refitting the same object, get_mahalanobis_matrix / get_metric no longer agree with pair_distance', {'est': name, 'L': L, 'M': M})
     # --- pairs given as indices through a preprocessor
     kinds = ['array', 'list', 'callable']
     names = zoo.ALL if tier == 'thorough' else [zoo.ALL[i] for i in rng.choice(len(zoo.ALL), 6, replace=False)]
